@@ -188,7 +188,7 @@ func (g *G) fnArgs() string {
 		case 1:
 			parts[i] = fmt.Sprintf("-%d", g.pick(50)+1)
 		case 2:
-			parts[i] = choose(g, `"s"`, `"a b"`, `"x,y"`, `"(z)"`, `"é"`, `""`, `"\"q\""`, `"\\"`, `"a  b.  c"`, `"  "`, `" lead"`, "\"t\tb\"", `"t\tb"`)
+			parts[i] = choose(g, `"s"`, `"a b"`, `"x,y"`, `"(z)"`, `"é"`, `""`, `"\"q\""`, `"\\"`, `"a  b.  c"`, `"  "`, `" lead"`, "\"t\tb\"", `"t\tb"`, "`raw,comma`", "`a ,b`", `"5\",black"`, `"\\",",q"`, "`\"`, `\",x`")
 		case 3:
 			parts[i] = choose(g, "1.5", "0.25", "2e3")
 		case 4:
@@ -276,7 +276,7 @@ func (g *G) fnArgsFor(fn string) string {
 	switch g.fnNames[fn] {
 	case "env":
 		if g.chance(0.8) {
-			return fmt.Sprintf(`"VERIF_ENV_%d", %s`, g.pick(3), choose(g, `"dflt"`, `""`, `"d e"`, `"d  e"`))
+			return fmt.Sprintf(`"VERIF_ENV_%d", %s`, g.pick(3), choose(g, `"dflt"`, `""`, `"d e"`, `"d  e"`, "`d,e`", `"d\",e ,f"`))
 		}
 		return fmt.Sprintf(`"VERIF_ENV_%d"`, g.pick(3))
 	case "envInt":
@@ -288,7 +288,7 @@ func (g *G) fnArgsFor(fn string) string {
 		if g.chance(0.4) {
 			return ""
 		}
-		return choose(g, `"later"`, `"in development"`, `""`, `"parameter"`, `"not  yet.  Ask  ops"`, "\"tab\there \"", `" x "`, `"first", "second"`, `"only the first counts", "x", "y"`, `"", "ignored"`, `"50\x25 done"`, `"100\u0025d of it"`, `"\045s and \x25v"`)
+		return choose(g, `"later"`, `"in development"`, `""`, `"parameter"`, `"not  yet.  Ask  ops"`, "\"tab\there \"", `" x "`, `"first", "second"`, `"only the first counts", "x", "y"`, `"", "ignored"`, `"50\x25 done"`, `"100\u0025d of it"`, `"\045s and \x25v"`, "`soon,or later`", `"say \"when\",then go"`)
 	case "FnTyped":
 		return choose(g, `2, 10, "s"`, `1.5, 3, "x y"`, `0, -4, ""`, `7, 0, "é"`)
 	}
